@@ -14,6 +14,13 @@ ASSUMPTIONS = [
     "termination is decided by a state budget 8*|LR1(g)|+64 (hook PARGLARE_VERIF_MAX_STATES) and a wall-clock limit, "
     "not by observing divergence",
     "failures are attributed to a known finding only when the frozen baseline implementation fails identically",
+    "theorems C05_first_*/C05_follow_*/C05_closure_*/C05_automaton_structure/C05_lalr_fixpoint/C05_model_table_complete/"
+    "C05_model_table_accepts are about the Gallina model of create_table (Model/First.v, Closure.v, Automaton.v, TableBuild.v); "
+    "that the impl builds the model's table (state numbering, items, follow sets, ACTION cells in order, GOTOs, finish flags, "
+    "FIRST, FOLLOW, conflicts, outcome kinds incl. GrammarError / budget / crashes) is established by the differential run "
+    "table_build_correspondence on generated grammars, not by proof",
+    "C05_model_table_complete covers the class plain_ok (no priorities, associativities, nops/nopse, prefer_shifts*; EMPTY only at "
+    "the end of right-hand sides) for SLR and LALR; with conflict resolution that removes actions completeness is false by design",
 ]
 
 CLASSICS = [
